@@ -171,7 +171,9 @@ LEVEL_TEXT = ("parse_build: for every record satisfying the decidable predicate 
               "and attributes, any map iteration order) Parse(Build x) returns exactly `expected x`: every set field unchanged, unset "
               "fields as the defaults Build wrote; parse_build_preserves restates it clause by clause (region name and bounds, sequence, "
               "seqid, source, type, score, strand, phase, coordinates, attributes as a permutation). The FASTA part is proved through a "
-              "newline-insensitivity lemma, so all residues modulo 70 and the RegionEnd exception are covered uniformly. coords_build / "
+              "newline-insensitivity lemma, so all residues modulo 70 and the RegionEnd exception are covered uniformly; "
+              "parse_buildWith states it for ANY line-break rule in Build's FASTA loop, and accordingly the correspondence compares "
+              "Build's text exactly through the definition line and up to newline positions inside the sequence. coords_build / "
               "coords_layout: GetSequence of a parsed feature is `bases seq first last` (1-based inclusive enumeration). "
               "parse_layout: the parse of any text produced by the independent writer (arbitrary widths, ## directives, # comment "
               "lines, blank lines, with or without ### and the final newline) is what the document denotes.")
